@@ -59,10 +59,14 @@ with open("seeded/README.md","w") as f:
     f.write("Each directory holds `patch.diff` (a change to Tangelo written by an independent sub-agent that saw only the property text), "
             "`demo.py` (passes on the unchanged tree, fails with the change) and `meta.json`. `tools/seeded_run.sh` applies each patch to a scratch "
             "worktree, runs the demonstration and the property's check (`VERIF_REPO=<worktree> ./vcheck <id>`), and regenerates this table.\n\n")
-    f.write("| change | property | check verdict | demo | time | what it changes | needs |\n|---|---|---|---|---|---|---|\n")
-    for r in rows:
+    f.write("| change | property | check verdict | demo | time | first violated obligation | what it changes | needs |\n|---|---|---|---|---|---|---|---|\n")
+    def key(r):
+        a, b = r[0].split("_")
+        return (a, int(b))
+    for r in sorted(rows, key=key):
         name=r[0]
         try: m=json.load(open(f"seeded/{name}/meta.json"))
         except Exception: m={}
-        f.write(f"| {name} | {r[1]} | **{r[2]}** | {r[3] if len(r)>3 else ''} | {r[4] if len(r)>4 else ''} | {str(m.get('summary',''))[:200]} | {str(m.get('needs',''))[:160]} |\n")
+        viol = (r[6] if len(r) > 6 else "").replace("violated:", "").replace("|", "/").strip()[:150]
+        f.write(f"| {name} | {r[1]} | **{r[2]}** | {r[3] if len(r)>3 else ''} | {r[4] if len(r)>4 else ''} | {viol} | {str(m.get('summary',''))[:200].replace('|','/')} | {str(m.get('needs',''))[:160].replace('|','/')} |\n")
 E
